@@ -65,6 +65,12 @@ theorem le_eq (a b : ℝ) : (Num.le a b = true) = (a ≤ b) := by
   show (decide (a ≤ b) = true) = (a ≤ b); simp
 theorem lt_decide (a b : ℝ) : Num.lt a b = @decide (a < b) (Classical.propDecidable _) := rfl
 theorem le_decide (a b : ℝ) : Num.le a b = @decide (a ≤ b) (Classical.propDecidable _) := rfl
+theorem isZero_eq (a : ℝ) : (Num.isZero a = true) = (a = 0) := by
+  unfold Num.isZero
+  rw [Bool.and_eq_true, le_eq, le_eq]
+  exact propext ⟨fun h => le_antisymm h.1 h.2, fun h => ⟨h.le, h.ge⟩⟩
+theorem isNaN_false (a : ℝ) : (!(Num.le a a)) = false := by
+  rw [le_decide]; simp
 end NumReal
 
 /-- the bridge simp set -/
@@ -73,4 +79,4 @@ macro "num_real" : tactic => `(tactic|
     NumReal.zero_eq, NumReal.one_eq, NumReal.two_eq, NumReal.fadd_eq, NumReal.fsub_eq, NumReal.fmul_eq,
     NumReal.fdiv_eq, NumReal.fneg_eq, NumReal.fzero_eq, NumReal.fone_eq, NumReal.ftwo_eq, NumReal.ofRat_eq,
     NumReal.sqrt_eq, NumReal.abs_eq, NumReal.sin_eq, NumReal.cos_eq, NumReal.tan_eq, NumReal.asin_eq,
-    NumReal.acos_eq, NumReal.exp_eq, NumReal.pi_eq, NumReal.lt_eq, NumReal.le_eq] at *)
+    NumReal.acos_eq, NumReal.exp_eq, NumReal.pi_eq, NumReal.lt_eq, NumReal.le_eq, NumReal.isZero_eq] at *)
